@@ -188,6 +188,24 @@ def gen_sendonly_exec(r, xid, tp):
     return lines
 
 
+def gen_blkreset_exec(r, xid, tp):
+    """Byte stream, directed: ONE blocking xcm_send larger than the (shrunk) kernel buffers take at once; the peer reads a
+    part of it while the call waits and then closes with unread data (the connection is reset under the call).  Whatever
+    the call reports, the bytes the peer was handed must be a prefix of what it reports as accepted (seed a4_c02)."""
+    lines = ["X %d %s" % (xid, tp), "Z %d" % r.choice([4096, 8192, 16384])]
+    if r.random() < 0.3:
+        lines.append("s 1 %d -1 0 1" % r.choice([1, 100, 1000]))
+        lines.append("f 1 -1 0")
+    lines.append("B s 1 %d" % r.choice([150000, 300000, 399999]))
+    lines.append("D 2 %d %d" % (r.choice([1, 3, 5, 12]), r.choice([1000, 20000, 70000])))
+    lines.append("c 2 %d" % r.choice([0, 1]))
+    lines.append("J 0 2000")
+    lines.append("s 1 10 -1 0 1")
+    lines.append("r 1 100 -1 0 -1 0")
+    lines.append("p")
+    return lines
+
+
 def gen_raw_exec(r, xid, tp):
     """Hostile peer: endpoint 2 is a raw TCP socket.  It writes well-formed frames, then possibly one malformed
     frame (illegal length), a truncated frame or garbage, in arbitrary pieces, and possibly dies."""
